@@ -26,6 +26,8 @@ CASES = [
  ('try_type_otherbody_phantom', "def f():\n    E = 0\n    try:\n        pass\n    except KeyError:\n        print(E)\n    except (E := ValueError):\n        pass\n", 'E', 6, "first handler body: second handler's type was never evaluated: only E = 0"),
  ('try_type_after_undef', "def f():\n    try:\n        pass\n    except (E := KeyError):\n        pass\n    return E\n", 'E', 6, "possibly undefined (no exception raised)"),
  ('try_type_finally_undef', "def f():\n    try:\n        pass\n    except (E := KeyError):\n        pass\n    finally:\n        print(E)\n", 'E', 7, "possibly undefined"),
+ ('return_does_not_end_region', "def f(c):\n    if c:\n        x = 1\n        return 0\n    else:\n        x = 2\n    return x\n", 'x', 7, "the if-branch returns: only x = 2 at (6, 8) can reach the last read"),
+ ('raise_does_not_end_region', "def f(c):\n    if c:\n        x = 1\n        raise ValueError\n    else:\n        x = 2\n    return x\n", 'x', 7, "the if-branch raises: only x = 2 at (6, 8)"),
 ]
 for k, src, name, line, expect in CASES:
     print('%-28s %-34s %s' % (k, alts(src, name, line), expect))
